@@ -521,7 +521,62 @@ func runC05(cfg *vh.Config) error {
 	maxFileToks := map[string]int{"repo-proto": cfg.Scale(24000, 400000), "compiled": cfg.Scale(30000, 600000), "hand-built": 100000}
 	pendingFiles := map[string][]func(){}
 	var emitFile func(stream string, fd protoreflect.FileDescriptor, out rtOut, lost bool, where string, input any)
-	addFile := func(stream string, fd protoreflect.FileDescriptor, out rtOut, fails []rtFailure, where string, input any) {
+	// byte level: the same descriptor WITHOUT source code info (no locations, no comments: the sub-class of
+	// model/ProtoPrintBytes.v), printed by the real printer; the model's render_bytes must give these bytes
+	type bytesCaseRec struct {
+		term, where string
+		size        int
+	}
+	var bytesCases []bytesCaseRec
+	var pendingBytes []func()
+	bytesBudget := cfg.Scale(420000, 6000000)
+	bytesUsed := 0
+	addBytes := func(stream string, fd protoreflect.FileDescriptor, siblings map[string]string, where string, input any) {
+		sfd, err := strippedDescriptor(fd)
+		if err != nil {
+			res.Count("bytes:descriptor not rebuilt without source info")
+			return
+		}
+		rt, fails := roundTripOut(ctx, sfd, siblings)
+		res.Count("bytes:" + stream + " printed without source info")
+		// A descriptor without source info is not something the toolchain prints (compiled j5s files and parsed
+		// .proto files carry locations): it is the carrier of the byte-level tie. Reported here: the printer fails or
+		// panics, or its text does not parse / link. Observed and counted, not judged (outside the quantifier of
+		// the property): (a) printElements adds the blank line at a change of element type only when the previous
+		// element has a location, so the re-parsed (located) descriptor prints with more blank lines than the
+		// unlocated one; (b) without locations fields and oneofs sort by index alone, so a oneof moves in front of
+		// plain fields with a higher index and the re-parsed descriptor lists the fields in that order.
+		for _, f := range fails {
+			switch {
+			case strings.HasPrefix(f.Sig, "options on the value field of a map entry are not printed"):
+				// reported for the located descriptor of the same file
+			case strings.HasPrefix(f.Sig, "printing the reparsed descriptor does not reproduce the text"):
+				res.Count("bytes:unlocated descriptor, second print differs in blank lines (observed, not judged)")
+			case strings.HasPrefix(f.Sig, "descriptor differs after print+parse") && strings.Contains(f.Sig, "field["):
+				res.Count("bytes:unlocated descriptor, field order after re-parse differs (observed, not judged)")
+			default:
+				res.Fail(vh.Failure{Case: 0, Stream: "bytes", Sig: "C05 descriptor without source info (" + stream + ") -> " + f.Sig, Clause: f.Clause, Input: input, Got: f.Got})
+			}
+		}
+		if rt.Txt1 == "" {
+			return
+		}
+		pendingBytes = append(pendingBytes, func() {
+			dterm, _, un := dfilexTerm(sfd)
+			if un != "" {
+				res.Count("bytes:outside the model (" + failureClass(un) + ")")
+				return
+			}
+			term := fmt.Sprintf("CBytes %s %s %s\n %s", bt("verif"), impTerm(sfd), dterm, bt(rt.Txt1))
+			if bytesUsed+len(term) > bytesBudget {
+				res.Count("bytes:over the budget of this tier")
+				return
+			}
+			bytesUsed += len(term)
+			bytesCases = append(bytesCases, bytesCaseRec{term: term, where: where, size: len(rt.Txt1)})
+		})
+	}
+	addFile := func(stream string, fd protoreflect.FileDescriptor, out rtOut, fails []rtFailure, where string, input any, siblings map[string]string) {
 		lost := false
 		for _, f := range fails {
 			if strings.HasPrefix(f.Sig, "options on the value field of a map entry are not printed") {
@@ -535,6 +590,7 @@ func runC05(cfg *vh.Config) error {
 			return
 		}
 		fileSeen.Add(out.Txt1)
+		addBytes(stream, fd, siblings, where, input)
 		orders.file(fd)
 		orders.file(out.Fd2)
 		// which files get the full check within the token budget is drawn per run (pendingFiles, below), so that over
@@ -606,7 +662,7 @@ func runC05(cfg *vh.Config) error {
 			}
 			addOpts(fd, "repo-proto", input)
 			rt, fails := roundTripOut(ctx, fd, root.Files)
-			addFile("repo-proto", fd, rt, fails, root.Dir+"/"+name, input)
+			addFile("repo-proto", fd, rt, fails, root.Dir+"/"+name, input, root.Files)
 			if len(fails) == 0 {
 				res.Count("repo-proto:round trip ok")
 			} else {
@@ -650,7 +706,7 @@ func runC05(cfg *vh.Config) error {
 			continue
 		}
 		rt, fails := roundTripOut(ctx, fd, map[string]string{})
-		addFile("hand-built", fd, rt, fails, name, input)
+		addFile("hand-built", fd, rt, fails, name, input, map[string]string{})
 		if len(fails) == 0 {
 			res.Count("hand-built:round trip ok")
 		} else {
@@ -686,7 +742,7 @@ func runC05(cfg *vh.Config) error {
 			distinct.Add("hand-multiline")
 			input := map[string]any{"file": name, "source": files[name]}
 			rt, fails := roundTripOut(ctx, fd, files)
-			addFile("hand-built", fd, rt, fails, name, input)
+			addFile("hand-built", fd, rt, fails, name, input, files)
 			if len(fails) == 0 {
 				res.Count("hand-built:round trip ok")
 			} else {
@@ -721,7 +777,7 @@ func runC05(cfg *vh.Config) error {
 				distinct.Add("hand-pair:" + name)
 				input := map[string]any{"file": name, "files of the package, printed in this order": []string{"hand/v1/a.proto", "hand/v1/b.proto"}, "source": pair[name]}
 				rt, fails := roundTripOut(ctx, fd, pair)
-				addFile("hand-built", fd, rt, fails, name, input)
+				addFile("hand-built", fd, rt, fails, name, input, pair)
 				if len(fails) == 0 {
 					res.Count("hand-built:round trip ok")
 				} else {
@@ -756,7 +812,7 @@ func runC05(cfg *vh.Config) error {
 				distinct.Add("hand-pair:" + name)
 				input := map[string]any{"file": name, "files of the package, printed in this order": []string{"other/v1/r.proto", "other/v1/q.proto"}, "source": pair[name]}
 				rt, fails := roundTripOut(ctx, fd, pair)
-				addFile("hand-built", fd, rt, fails, name, input)
+				addFile("hand-built", fd, rt, fails, name, input, pair)
 				if len(fails) == 0 {
 					res.Count("hand-built:round trip ok")
 				} else {
@@ -817,7 +873,7 @@ func runC05(cfg *vh.Config) error {
 			res.Count("compiled-file")
 			addOpts(f, "compiled", map[string]any{"package": p.Pkg, "file": f.Path(), "j5s": src})
 			rt, fails := roundTripOut(ctx, f, siblings)
-			addFile("compiled", f, rt, fails, p.Pkg+" "+f.Path(), map[string]any{"package": p.Pkg, "file": f.Path(), "j5s": src})
+			addFile("compiled", f, rt, fails, p.Pkg+" "+f.Path(), map[string]any{"package": p.Pkg, "file": f.Path(), "j5s": src}, siblings)
 			if len(fails) > 0 {
 				ok = false
 				in2 := map[string]any{"package": p.Pkg, "file": f.Path(), "j5s": src}
@@ -986,6 +1042,33 @@ func runC05(cfg *vh.Config) error {
 	if err != nil {
 		return err
 	}
+	// byte level: a fifth family of shards
+	bf := &vh.CasesFile{
+		Header: "From Coq Require Import String List NArith ZArith.\nFrom J5V.model Require Import ProtoPrintLit ProtoPrint ProtoLex ProtoPrintCorr ProtoPrintFile ProtoPrintFileX ProtoPrintBytes ProtoPrintBytesCorr.",
+		Type:   "c05bytes",
+		Check:  "c05_bytes_check",
+	}
+	const perBytes = 5
+	bpick := cfg.R.Fork("c05-bytes-pick")
+	for i := len(pendingBytes) - 1; i > 0; i-- {
+		j := bpick.Intn(i + 1)
+		pendingBytes[i], pendingBytes[j] = pendingBytes[j], pendingBytes[i]
+	}
+	for _, f := range pendingBytes {
+		f()
+	}
+	for i, c := range bytesCases {
+		caseNo++
+		res.Count("bytes")
+		distinct.Add("bytes:" + c.where + fmt.Sprint(c.size, len(c.term)))
+		bf.Terms = append(bf.Terms, c.term)
+		res.Cases = append(res.Cases, vh.CaseRec{Case: caseNo, Stream: "bytes", Shard: fmt.Sprintf("bytes_%d", i/perBytes), Pos: i % perBytes, Input: c.where, Impl: fmt.Sprintf("%d bytes printed", c.size)})
+		res.Sample(map[string]any{"stream": "bytes", "file": c.where, "bytes": c.size}, 6)
+	}
+	bshards, err := bf.WriteShards(cfg.Out, "bytes", perBytes)
+	if err != nil {
+		return err
+	}
 	// order decisions: a fourth family of shards
 	od := &vh.CasesFile{
 		Header: "From Coq Require Import String List NArith ZArith.\nFrom J5V.model Require Import ProtoPrintLit ProtoPrint ProtoPrintCorr ProtoPrintFile ProtoPrintFileCorr.",
@@ -1008,7 +1091,7 @@ func runC05(cfg *vh.Config) error {
 	}
 	res.Evaluations = caseNo
 	res.Distinct = len(distinct)
-	res.Shards = append(append(append(shards, oshards...), fshards...), odshards...)
+	res.Shards = append(append(append(append(shards, oshards...), fshards...), odshards...), bshards...)
 	return res.Write(cfg.Out)
 }
 
